@@ -568,8 +568,13 @@ func (o *trafficOracle) checkGraceIsolation(s *Sim, w *Write) {
 		return
 	}
 	if w.Key.GK == gkService && w.Key.Name == o.canarySvc && w.Removed {
-		o.canaryDeletedAt = s.Now()
-		o.canaryDeletedGen = s.Proc.gen
+		// an unacknowledged delete (error after commit, crash after commit) legitimately leaves no timer behind
+		if w.Fault == "" {
+			o.canaryDeletedAt = s.Now()
+			o.canaryDeletedGen = s.Proc.gen
+		} else {
+			o.canaryDeletedAt = time.Time{}
+		}
 		return
 	}
 	if w.Key.GK != gkRollout || w.Old == nil || w.New == nil || o.canaryDeletedAt.IsZero() {
